@@ -129,6 +129,32 @@ pub fn exec(rec: &Value, st: &mut State) -> Value {
             }
         }
         // ---------------- C04: history of portioning operations on a current Curve2
+        "nav" => {
+            // extension beyond the listed properties: vertex-to-vertex navigation of 2D stations.
+            // Positions are reported as (vertex index * 2 + (1 if strictly inside the following edge)), -1 for None.
+            let (s, c) = build2(rec);
+            let c = match c { Ok(c) => c, Err(_) => return json!({"built": false}) };
+            let pos = |st: &CurveStation2| -> i64 {
+                let (i, f) = (st.index() as i64, st.fraction());
+                if f <= 0.0 { 2 * i } else if f >= 1.0 { 2 * (i + 1) } else { 2 * i + 1 }
+            };
+            let opt = |st: Option<CurveStation2>| -> i64 { match st { None => -1, Some(st) => pos(&st) } };
+            let mut rows = vec![];
+            for l2 in gvi(rec, "ls") {
+                let st = match c.at_length(l2 as f64 / 2.0 * s) { Some(st) => st, None => { rows.push(json!({"some": false, "at": 0, "prev": 0, "next": 0, "ati": 0, "atn": 0, "fwd": [], "bwd": []})); continue } };
+                // walk forward / backward until None, at most count + 3 steps
+                let cap = c.count() + 3;
+                let mut fwd = vec![];
+                let mut cur = st.clone();
+                for _ in 0..cap { match cur.next() { None => { fwd.push(-1); break } Some(n) => { fwd.push(pos(&n)); cur = n } } }
+                let mut bwd = vec![];
+                let mut cur = st.clone();
+                for _ in 0..cap { match cur.previous() { None => { bwd.push(-1); break } Some(n) => { bwd.push(pos(&n)); cur = n } } }
+                rows.push(json!({"some": true, "at": pos(&st), "prev": opt(st.previous()), "next": opt(st.next()),
+                                 "ati": pos(&st.at_index()), "atn": pos(&st.at_next_index()), "fwd": fwd, "bwd": bwd}));
+            }
+            json!({"built": true, "n": c.count(), "rows": rows})
+        }
         "root" => {
             let (s, c) = build2(rec);
             match c {
